@@ -488,6 +488,12 @@ def r3(ctx):
     sends = [(bi, t) for bi, t in b.calls() if (t.callee() or "") == H + "send"]
     incs = [bi for bi, t in b.calls() if (t.callee() or "").endswith("RequestCall::increment_retries")]
     fails = [(bi, t) for bi, t in b.calls() if (t.callee() or "") == H + "fail_request"]
+    if inserts and sends and fails and not done:
+        # the give-up branch is not entered by an ordering test `retries >= limit`: an equality (or nothing) leaves values of the counter
+        # for which the request is re-sent for ever (e.g. request_retries = 0 while the counter starts at 1)
+        rule.fail("timeout|bound-not-ordering", "handle_request_timeout does not give up on an ordering test `retries() >= request_retries`: for a counter value "
+                  "beyond the limit (request_retries = 0, the counter starts at 1) the request is re-sent on every timeout and never failed", loc=b.loc(b.line))
+        return rule
     if not (done and inserts and sends and fails):
         raise AnchorError("handle_request_timeout: retry guard / insert / send / fail_request not all found")
     r = b.reachable(0, removed_edges=more)
